@@ -212,10 +212,23 @@ func (g *G) cond(e ast.Expr, c *fctx, p ps, last string) (string, int) {
 	case strings.HasSuffix(t, ".resend(msg)") && last == "rej":
 		return "CNot (CRej)", 0
 	}
-	if be, ok := e.(*ast.BinaryExpr); ok && be.Op == token.NEQ && c.name == "resendMessages" {
+	if be, ok := e.(*ast.BinaryExpr); ok && c.name == "resendMessages" {
 		a, b := g.exprName(be.X, c), g.exprName(be.Y, c)
 		if a != "" && b != "" {
-			return "CNeq " + a + " " + b, 0
+			switch be.Op {
+			case token.NEQ:
+				return "CNeq " + a + " " + b, 0
+			case token.EQL:
+				return "CNot (CNeq " + a + " " + b + ")", 0
+			case token.GTR:
+				return "CGt " + a + " " + b, 0
+			case token.LSS:
+				return "CGt " + b + " " + a, 0
+			case token.LEQ:
+				return "CNot (CGt " + a + " " + b + ")", 0
+			case token.GEQ:
+				return "CNot (CGt " + b + " " + a + ")", 0
+			}
 		}
 	}
 	return "COther", 0
